@@ -569,11 +569,10 @@ func c14b(c *Ctx) {
 	ws := c.sitesOf(fn)
 	for i := range ws {
 		if ws[i].isFmt && ws[i].format == "\t%s\n" && len(ws[i].argT) == 1 {
-			if s, isC := strConst(ws[i].argV(0)); isC && s == "step_end" {
-				termW = &ws[i]
-			} else {
-				stepW = &ws[i]
-			}
+			stepW = &ws[i]
+		}
+		if ws[i].format == "\tstep_end\n" {
+			termW = &ws[i]
 		}
 	}
 	if stepW == nil || termW == nil {
@@ -617,11 +616,10 @@ func c14c(c *Ctx) {
 	var itemW, termW *writeSite
 	for i := range ws {
 		if ws[i].isFmt && ws[i].format == "\t.2byte %s\n" && len(ws[i].argT) == 1 {
-			if s, isC := strConst(ws[i].argV(0)); isC && s == "ITEM_NONE" {
-				termW = &ws[i]
-			} else {
-				itemW = &ws[i]
-			}
+			itemW = &ws[i]
+		}
+		if ws[i].format == "\t.2byte ITEM_NONE\n" {
+			termW = &ws[i]
 		}
 	}
 	if itemW == nil || termW == nil {
